@@ -30,4 +30,18 @@ theorem accessors_read_their_own_column :
     emcAccessors = [("emc_gid_to_center_x", "center_x"), ("emc_gid_to_center_y", "center_y"), ("emc_gid_to_center_z", "center_z"), ("emc_gid_to_front_center_x", "front_center_x"), ("emc_gid_to_front_center_y", "front_center_y"), ("emc_gid_to_front_center_z", "front_center_z"), ("emc_gid_to_part", "part"), ("emc_gid_to_phi", "phi"), ("emc_gid_to_point_x", "points_x"), ("emc_gid_to_point_y", "points_y"), ("emc_gid_to_point_z", "points_z"), ("emc_gid_to_theta", "theta")] ∧
     mdcTable = "mdc_geom.npz" ∧ emcTable = "emc_geom.npz" := by decide
 
+/-- C09's line clause for the kernels *as translated* (`mdc_gid_z_to_x / _y` with the loader's slopes substituted): for every z — inside or
+outside the wire span — the point (x(z), y(z), z) is the affine combination of the wire's two end points with parameter
+t = (z − z_w)/(z_e − z_w); it passes through both ends; and at the mean z it is the mean of the end points (the `mid_x / mid_y` of the parsers) -/
+theorem z_to_xy_on_line (xw yw zw xe ye ze z : ℝ) (hz : ze ≠ zw) :
+    let t := (z - zw) / (ze - zw)
+    zToXPy xw yw zw xe ye ze z = (1 - t) * xw + t * xe ∧ zToYPy xw yw zw xe ye ze z = (1 - t) * yw + t * ye ∧
+    z = (1 - t) * zw + t * ze ∧
+    zToXPy xw yw zw xe ye ze zw = xw ∧ zToXPy xw yw zw xe ye ze ze = xe ∧
+    zToYPy xw yw zw xe ye ze zw = yw ∧ zToYPy xw yw zw xe ye ze ze = ye ∧
+    zToXPy xw yw zw xe ye ze ((zw + ze) / 2) = (xw + xe) / 2 ∧ zToYPy xw yw zw xe ye ze ((zw + ze) / 2) = (yw + ye) / 2 := by
+  have h : ze - zw ≠ 0 := sub_ne_zero.mpr hz
+  simp only [zToXPy, zToYPy]
+  refine ⟨?_, ?_, ?_, ?_, ?_, ?_, ?_, ?_, ?_⟩ <;> field_simp <;> ring
+
 end Pybes3Verif.Gen.GeomPy
